@@ -124,7 +124,7 @@ pub fn reload_graph<'a>(
   ch: &Ch,
 ) -> Result<(), DriveError> {
   let sched: Rc<Sched> = loader.sched.clone();
-  let options = BuildOptions {
+  let mut options = BuildOptions {
     is_dynamic: cfg.is_dynamic,
     skip_dynamic_deps: cfg.skip_dynamic_deps,
     unstable_bytes_imports: cfg.unstable_bytes,
@@ -136,6 +136,9 @@ pub fn reload_graph<'a>(
     resolver: cfg.resolver,
     ..Default::default()
   };
+  if let Some(a) = cfg.module_analyzer {
+    options.module_analyzer = a;
+  }
   let fut = graph.reload(specifiers, loader, options);
   with_canonical_orders(|| drive(fut, &sched, ch, cfg.sched_cost))
 }
